@@ -8,14 +8,14 @@ from .common import Broken
 
 PREFIX = {"acl": "access-list", "gp": "group-policy", "user": "username", "pool": "ip local pool",
           "tg": "tunnel-group", "cm": "crypto ca certificate map", "tgm": "tunnel-group-map", "webvpn": "webvpn",
-          "cmap": "crypto map", "ts": "crypto ipsec ikev1 transform-set"}
+          "cmap": "crypto map", "ts": "crypto ipsec ikev1 transform-set", "dmap": "crypto dynamic-map"}
 RPREFIX = sorted(((v, k) for k, v in PREFIX.items()), key=lambda x: -len(x[0]))
 # sub-commands that reference another object: text prefix -> kind of the referenced object
 SUBREF = [("vpn-filter value ", "acl"), ("split-tunnel-network-list value ", "acl"), ("address-pools value ", "pool"),
           ("default-group-policy ", "gp"), ("vpn-group-policy ", "gp")]
-ORDER = ["acl", "pool", "ts", "cm", "gp", "tg", "user", "tgm", "webvpn", "cmap", "cmi"]
+ORDER = ["acl", "pool", "ts", "cm", "gp", "tg", "user", "tgm", "webvpn", "dmap", "cmap", "cmi"]
 # settings of a crypto map entry that reference another object: text prefix -> kind
-CMREF = [("match address ", "acl"), ("set ikev1 transform-set ", "ts")]
+CMREF = [("match address ", "acl"), ("set ikev1 transform-set ", "ts"), ("ipsec-isakmp dynamic ", "dmap")]
 
 
 def key(kind, name):
@@ -36,9 +36,9 @@ def render(cfg, dev):
     for kind in ORDER:
         for k in sorted(k for k in objs if objs[k]["kind"] == kind):
             o = objs[k]
-            if kind == "cmap":       # top-level lines `crypto map NAME SEQ setting`
+            if kind in ("cmap", "dmap"):       # top-level lines `crypto map NAME SEQ setting`
                 for ln in sorted(o["lines"], key=lambda l: (int(l["m"]), l["t"])):
-                    out.append("crypto map %s %s %s" % (o["name"], ln["m"], subst(ln["t"], ln["r"])))
+                    out.append("%s %s %s %s" % (PREFIX[kind], o["name"], ln["m"], subst(ln["t"], ln["r"])))
                 continue
             if kind == "cmi":        # `crypto map NAME interface IF`
                 for ln in o["lines"]:
@@ -119,9 +119,9 @@ def parse_script(text):
             continue
         kind, name, rest = top
         k = key(kind, name)
-        if kind == "cmap":
+        if kind in ("cmap", "dmap"):
             w = rest.split()
-            if w[0] == "interface":
+            if kind == "cmap" and w[0] == "interface":
                 evs.append(dict(e, ev="TopNoLine" if no else "TopLine", k=key("cmi", w[1]), kind="cmi", name=w[1], m="",
                                 tx="$ interface", r=[k]))
             else:
